@@ -10,6 +10,7 @@ import (
 	"encoding/json"
 	"fmt"
 	"math"
+	"net/url"
 	"regexp"
 	"sort"
 	"strconv"
@@ -290,7 +291,12 @@ func toInt(v interface{}) int {
 func RefName(ref string) string {
 	const p = "#/definitions/"
 	if strings.HasPrefix(ref, p) {
-		return Pct(ref[len(p):])
+		name := ref[len(p):]
+		if u, err := url.PathUnescape(name); err == nil {
+			name = u
+		}
+		name = strings.ReplaceAll(strings.ReplaceAll(name, "~1", "/"), "~0", "~")
+		return Pct(name)
 	}
 	return "!" + Pct(ref)
 }
